@@ -300,7 +300,7 @@ var c13AdmitMenu = map[string][]string{
 	"cpu":          {"0", "1m", "250m", "500m", "999m", "1", "1001m", "1500m", "2", "3", "0.5", "1.5", "2000m", "4", "3000m", "750m", "1250m"},
 	"memory":       {"0", "1Ki", "1Gi", "512Mi", "1k"},
 	"batch-cpu":    {"0", "1", "500", "1000", "1500"},
-	"batch-memory": {"0", "1", "1Ki", "1Gi"},
+	"batch-memory": {"0", "1", "1Ki", "1Mi"}, // summed by the specification: keep every sum below 2^31
 	"mid-cpu":      {"0", "1000"},
 	"mid-memory":   {"1Mi"},
 }
